@@ -40,4 +40,13 @@ PROPS = {
         "assumptions": ["for audio the availability instant may lie anywhere between the end of the reference video segment and the end of the audio segment (< 1 frame)",
                         "the 425 body may state floor or ceil of the remaining milliseconds"],
     },
+    "C03": {
+        "parts": [{"pkg": "livesim", "test": "TestVerifC03", "gen": True}],
+        "clauses": ["C03.a", "C03.b", "C03.c", "C03.d", "C03.e", "C03.f"],
+        "level": "model_checking",
+        "rule": "every audio representation (AAC 1024, AC-3 1536; bundled + generated grids, audio loop shorter/longer than video) x {Number, Time} x (snr,start) {default,(7,900)} "
+                "x every n over the audio/video phase cycle (period computed exactly, capped at 64/2048 loops) + 2 loops far from the epoch; "
+                "reference: F(x)=ceil(x*tsA/(tsV*frame))*frame in exact arithmetic, frame identity by payload hash against the VoD frames",
+        "assumptions": ["reference video representation = first video representation in id order"],
+    },
 }
